@@ -60,6 +60,17 @@ def _collect(sub, cname, sources):
             _collect(x, cname, sources)
 
 
+def add_lemma_programs(sources, contracts):
+    """Lemma programs: spec-level client code kept in the contract file (ghost
+    'source'); every call in it is resolved by the callee's contract, so the
+    lemma is a statement about the contracts (e.g. setstate(getstate(x)))."""
+    import textwrap
+    for c in contracts.values():
+        src = c.ghost.get("source")
+        if src:
+            sources[c.name] = ast.parse(textwrap.dedent(src)).body[0]
+
+
 def all_contracts():
     import importlib
     import pkgutil
@@ -279,6 +290,7 @@ def verify_one(args):
         from .sym import Unsupported
         sources, classes = load_sources()
         contracts = all_contracts()
+        add_lemma_programs(sources, contracts)
         con = contracts[name]
         timeout = 6000 if tier == "quick" else 60000
         eng = Verifier(sources, classes, contracts, ground=None, mode=mode)
